@@ -148,7 +148,7 @@ variable (T : Stat)
 /-- The second statement of a sequence, given what the first one achieved (`pa`). -/
 theorem seq_cont (n : Nat) (ih : SimStmt T n) (a b : Stmt) {out oa : CSem2.Outcome}
     {lp : Bool × Bool} {brk cont : String} {c : SCtx} {nd nd' : Nat} {pre post : List Item} {st0 : State}
-    (hfrb : frag T.P T.cnts b = true)
+    (hfrb : frag T.P T.cnts T.W b = true)
     (hwt : Stmt.wt T.vtys T.ret lp.1 lp.2 nd (.seq a b) = some nd') (hp : PosS T c nd pre)
     (hjs : c.jump = none ∨ a.startsLabel = true)
     (hext : Ext T (funcstmt T.S.cs brk cont (.seq a b) c).ctx)
@@ -223,12 +223,12 @@ theorem seq_cont (n : Nat) (ih : SimStmt T n) (a b : Stmt) {out oa : CSem2.Outco
 theorem sim_seq (n : Nat) (ih : SimStmt T n) (a b : Stmt) {s : Store} {out : CSem2.Outcome}
     {lp : Bool × Bool} {brk cont : String} {c : SCtx} {nd nd' : Nat} {pre post : List Item} {env : Env}
     {M : Mem}
-    (hex : exec T.S.cs T.P (n + 1) s (.seq a b) = some out) (hfr : frag T.P T.cnts (.seq a b) = true)
+    (hex : exec T.S.cs T.P (n + 1) s (.seq a b) = some out) (hfr : frag T.P T.cnts T.W (.seq a b) = true)
     (hwt : Stmt.wt T.vtys T.ret lp.1 lp.2 nd (.seq a b) = some nd') (hp : Pos T c nd pre)
     (hext : Ext T (funcstmt T.S.cs brk cont (.seq a b) c).ctx)
     (hits : T.S.its = pre ++ (funcstmt T.S.cs brk cont (.seq a b) c).items ++ post)
     (hlp : (lp.1 = true → CanJump T.S brk) ∧ (lp.2 = true → CanJump T.S cont))
-    (inv : SInv T.M0 T.S.cs T.cnts T.σ T.vtys s env M) :
+    (inv : SInv T.M0 T.S.cs T.cnts T.W T.σ T.vtys s env M) :
     Post T lp brk cont (T.at env M pre) (pre ++ (funcstmt T.S.cs brk cont (.seq a b) c).items)
       (funcstmt T.S.cs brk cont (.seq a b) c).ctx out := by
   simp only [frag, Bool.and_eq_true] at hfr
